@@ -1,0 +1,5 @@
+//go:build !verif
+
+package diff
+
+func verifCount(string, int, int) {}
